@@ -21,9 +21,9 @@ pub const COMMON_ASSUMPTIONS: &[&str] = &[
 
 pub fn info(id: &str) -> Option<PropInfo> {
     let (level, rule): (&str, &str) = match id {
-        "C01" => ("exploration", "subjects = closed types of the fixed + seeded universes; values from the edge-biased recursive strategy; oracle: model value equality after serialize -> deserialize_full. Non-trivial = value has a non-empty sequence, a non-first variant or a non-default primitive; distinct by (type, value)."),
+        "C01" => ("exploration", "subjects = closed types of the fixed, extra (targeted shapes: large units, long type names, zero-byte items), zst (zero-sized blocks) and seeded universes; values from the edge-biased recursive strategy, plus deterministic sweeps (preceding length 0..=130 for the Pre wrappers, payloads of 1 MiB and more); oracle: model value equality after serialize -> deserialize_full. Non-trivial = value has a non-empty sequence, a non-first variant or a non-default primitive; distinct by (type, value)."),
         "C02" => ("exploration", "same domain; stream placed page-aligned and at an odd multiple of the largest unit; oracle: eps value == original == full copy; DeserType TypeId equals the documented substitution. Non-trivial = at least one non-empty borrow or non-empty sequence."),
-        "C03" => ("exploration", "same domain; borrows (pre-order) must coincide with the serializer's block events at borrowed positions (offset, length, alignment, in-buffer); allocation calls/bytes invariant under scaling borrowed lengths by 2, 5, 64. Non-trivial = at least one non-empty borrow."),
+        "C03" => ("exploration", "same domain; borrows (pre-order) must coincide with the serializer's block events at borrowed positions (offset, length, alignment, in-buffer), also at 7 displaced base addresses whenever deserialization succeeds there; allocation calls/bytes invariant under scaling borrowed lengths by 2, 5, 64 (counting allocator). Non-trivial = at least one non-empty borrow."),
         "C04" => ("exploration", "universes of generated definitions extended with near-miss mutants in separate modules (field renamed, fields swapped, same-size field type, copy kind toggled, const parameter renamed, variant renamed/swapped, repr(align) added/changed, array length, tuple arity, sequence kind, type renamed, identical copy as positive control) and near-miss built-in compositions; (1) over all unordered pairs of subjects: same (type hash, alignment hash) iff same structural description (type-level attributes; layout = repr attributes, size, offsets from the compiler); (2) bytes of T read as U (full and eps) for all near-miss pairs both ways and a random sample of pairs: WrongTypeHash / WrongAlignHash with both hash values, or accepted with the same value when the descriptions are equal; (3) slice/iterator/vector share both hashes. Non-trivial = cross-read of a pair with different descriptions, distinct by (T, U, value)."),
         "C05" => ("exploration", "type definitions generated from the derive grammar (named/tuple/unit structs, unit/tuple/struct variants, field / inner / phantom / const / defaulted parameters, inline bounds, where-clauses, zero_copy / deep_copy / no attribute, repr attributes, nesting of earlier definitions) x instantiations x values; oracles: the generated program compiles against the working tree (a failure is bisected to the culprit definition), every instantiation round-trips in both modes, TypeId of DeserType equals the documented substitution and SerType is the type itself; identified probe classes for shapes the statement names that the derive rejects. Non-trivial = definition with >= 1 parameter or >= 2 variants, distinct by (type, value)."),
         "C06" => ("exploration", "bytes compared with an independent reference encoder + reference hasher (compiler padding masked); golden corpus written by the pinned build re-read. Non-trivial = stream contains a tag, length prefix or block."),
@@ -33,10 +33,10 @@ pub fn info(id: &str) -> Option<PropInfo> {
         "C10" => ("fault_enumeration", "per generated stream: every single-bit flip of the 29 fixed header bytes, reversed cookie, minor version classes, both modes; oracle: field -> exact error variant and payload. Non-trivial = every mutation (distinct by subject, value, mutation)."),
         "C11" => ("fault_enumeration", "per generated stream: every cut point k in [0,len) (sampled for long streams) x {full, load_full, eps on exact prefix, mmap}; oracle: ReadError / error-or-bounds-panic, never a value. Non-trivial = cut inside the value part."),
         "C12" => ("exploration", "per generated stream: all base residues 0..127; oracle: success iff every block the deserializer meets lands on a multiple of its unit (prediction from the serializer's align events), else AlignmentError; borrows aligned. Non-trivial = residue predicted to fail, or a sibling pair with different block sets."),
-        "C13" => ("fault_enumeration", "per generated value: fail@k for every k in [0,len], flush failure, Ok(0)@k, split and interrupted schedules; oracle: Err(WriteError), accepted bytes are a prefix, split/retry sinks get exact bytes, no pre-existing allocation freed, source intact. Non-trivial = 0 < k < len."),
+        "C13" => ("fault_enumeration", "per generated value: persistent fail@k, one-shot fail@k and Ok(0)@k for every k in [0,len] (sampled above the budget), flush failure, split and interrupted schedules, plain and BufWriter sinks, /dev/full; the same through serialize_with_schema and serialize_on_field_write; sources behind &[T], SerIter and generic wrappers of them; oracle: Err(WriteError), accepted bytes are a prefix, split/retry sinks get exact bytes, no allocation that existed before the call is freed (protected epoch of the tracking allocator), source intact. Non-trivial = 0 < k < len."),
         "C14" => ("fault_enumeration", "per generated stream: chunked / 1-byte / interrupted readers and fail@k for every k in [0,len); oracle: same value / Err(ReadError), no panic, no foreign free. Non-trivial = failure inside the value part or fragmented read of a stream with a sequence."),
         "C15" => ("exploration", "every tag site of every generated stream x every foreign tag value (all bytes / boundary usize values), both modes; every variant round-trips. Non-trivial = foreign tag injection (distinct by subject, value, site, tag)."),
-        "C18" => ("exploration", "schema recording vs plain bytes; row invariants (pre-order, containment, leaf tiling, zero padding, aligned blocks); to_csv/debug. Non-trivial = schema with a composite having >= 2 children and a padding row."),
+        "C18" => ("exploration", "schema recording vs plain bytes; row invariants (pre-order, containment, leaf tiling, zero padding, aligned blocks); the same with the SchemaWriter layered on a writer that has already written a 3/8/13-byte prefix; to_csv/debug. Non-trivial = schema with a composite having >= 2 children and a padding row."),
         "C16" => ("exploration", "every subject of the form Vec<E> (zero-copy and deep E) x generated item sequences incl. empty: streams of &[E], SerIter (zero-copy E), and both nested in one- and two-parameter generic structs compared byte-for-byte (same source memory) with the vector's stream, header included; slice stream deserialized as the vector in both modes; lying iterators for all (announced, actual) in 0..8 x {standalone, nested}; writer faults with borrowed sources (no foreign free). Non-trivial = non-empty sequence, or announced != actual."),
         "C17" => ("exploration", "probe programs: a valid zero-copy definition generated from the grammar (twin) and the same definition with one mutation (field replaced by vector / string / boxed slice / deep struct / Copy-but-deep struct / option / reference / reference holder / array of deep values / non-Copy range, repr(C) dropped or replaced, both attributes); oracle: cargo check rejects the mutant, or the built mutant panics/fails with no byte written beyond the header; the twin compiles and round-trips. Non-trivial = mutant probe, distinct by source text."),
         "C19" => ("exploration", "operation histories vec(op, 0..60) over {write, write_all, flush, read, seek start/current/end, set_position, position, len, as_bytes} x 8 alignment types x optional initial capacity, plus long histories (500-1500 ops); differential against std::io::Cursor<Vec<u8>> after every step (result/ErrorKind, position, length, contents, storage alignment). Non-trivial = history containing a non-empty write that begins beyond the current length; distinct by (alignment, history, capacity)."),
